@@ -19,6 +19,8 @@ import numpy as np
 def apply_chain(val, chain):
     cur = val
     for idx, flat in chain:
+        if idx is None:
+            continue            # a plain connection (no src_indices)
         if flat:
             cur = cur.ravel()[idx]
         else:
@@ -28,7 +30,7 @@ def apply_chain(val, chain):
 
 
 def spec_str(i):
-    return repr(i).replace('slice(None, None, None)', ':')
+    return 'no src_indices' if i is None else repr(i).replace('slice(None, None, None)', ':')
 
 
 SL = slice
@@ -41,6 +43,9 @@ FORMS = {
     (2, 2, 3): [((SL(None), -1, SL(None)), False), ((1, SL(None), [0, 2]), False), ((Ellipsis, -1), False), ([0, 11, -1, 5], True),
                 ((SL(None), SL(None), SL(2, None, -1)), False)],
 }
+# 0-d sources and one-element vectors (plain connections and the few indices they admit)
+FORMS[()] = [(None, False)]
+FORMS[(1,)] = [(None, False), ([0], False), (SL(None), False), ([-1], True), ([0, 0], False)]
 SECOND = [([0, -1], False), (SL(None, None, -1), False), (SL(1, None), False), ([-1], True), ((Ellipsis,), False)]
 UNITS = [None, 'm', 'cm', 'mm']
 FACT = {None: 1.0, 'm': 1.0, 'cm': 100.0, 'mm': 1000.0}
@@ -132,6 +137,8 @@ def build_and_check(case):
     if not seen:
         return dict(desc, kind='sink never ran')
     for n, s in enumerate(seen if solver else seen[-1:]):
+        if want.ndim == 0:
+            s = np.asarray(s).reshape(())        # (a 0-d input is presented to compute() as a one-element array)
         if s.shape != want.shape or not np.allclose(s, want, rtol=1e-12, atol=1e-12):
             return dict(desc, kind='input differs from the indexed, unit-converted source value', evaluation=n, seen=np.asarray(s).tolist(), expected=want.tolist())
     return dict(ok=True)
